@@ -577,10 +577,10 @@ def garbage_plan(K, ctx, prop):
         "note": "MC_Garbage.tla: all token strings up to the bound over a 44-token alphabet per format, and well-formed texts under token / "
                 "character-level edits (delete, duplicate, insert, swap, truncate inside keywords); the model of M1 is run on each with the "
                 "invariants WindowsOK, StepsAdvance, AcceptedIsWF, SideDoorsWF. Plus seeded long / deep / Unicode inputs from `nv drive` (<= 512 "
-                "chars, nesting <= 64, 5 s watchdog, 256 MB stack). Judged: " + what + ". Model/code verdict differences are DRIFT only.",
+                "chars, nesting <= 64, 20 s watchdog, 256 MB stack). Judged: " + what + ". Model/code verdict differences are DRIFT only.",
         "rule": "one case = (string or lexical value, format); non-trivial = at least two characters / not a bare atom; token strings exhaustive "
                 "up to the bound, the rest sampled",
-        "assumptions": TRUSTED + ["bounded time is decided by a 5 s watchdog per input, not by TLC"],
+        "assumptions": TRUSTED + ["bounded time is decided by a 20 s watchdog per input, not by TLC"],
     }
 
 
